@@ -787,7 +787,7 @@ def impl_run(m, e, fault, vals, nvars, budget=2000):
     classes[1] = type("E1", (Exception,), {})
     classes[2] = type("E2", (classes[1],), {})
     classes[3] = type("E3", (classes[1],), {})
-    classes[4] = type("E4", (Exception,), {})
+    classes[4] = type("E4", (BaseException,), {})   # not an Exception: only a bare handler or E4 itself catches it
     trace = []
     steps = [0]
 
